@@ -10,9 +10,6 @@ Import ListNotations.
 Open Scope string_scope.
 Open Scope list_scope.
 
-Lemma lookup_sweep_current : lookup_sweep u_current = true.
-Proof. exact lookup_ok_current_p. Qed.
-
 Lemma supported_sweeps u : In u supported_universes -> lookup_sweep u = true.
 Proof.
   intros [<-|[<-|[<-|[<-|[<-|[<-|[<-|[]]]]]]]];
